@@ -440,7 +440,9 @@ static void run_fptrack(const Case& c) {
     PhaseSpace::resetSize(n, 1);
     auto g1 = mkps(n, 1, c.data.data(), c.extra[1], c.extra[2], c.extra[3], c.extra[4]);
     auto g2 = mkps(n, 1, nullptr, c.extra[1], c.extra[2], c.extra[3], c.extra[4]);
-    FokkerPlanckMap fp(g1, g2, n, n, FokkerPlanckMap::FPType::full, static_cast<FokkerPlanckMap::FPTracking>(fptr), e1,
+    // optional 9th token: the Fokker-Planck variant of the MAP (0 none, 1 damping only, 2 diffusion only, 3 full = default)
+    const auto fptype = static_cast<FokkerPlanckMap::FPType>(c.head.size() > 8 ? std::stoul(c.head[8]) : 3);
+    FokkerPlanckMap fp(g1, g2, n, n, fptype, static_cast<FokkerPlanckMap::FPTracking>(fptr), e1,
                        static_cast<FokkerPlanckMap::DerivationType>(dt), nullptr);
     std::vector<PhaseSpace::Position> parts(np);
     for (uint32_t i = 0; i < np; i++) { parts[i].x = 1.0f + static_cast<float>(i % (n - 2)); parts[i].y = c.extra[5]; }
